@@ -132,6 +132,10 @@ func buildSide(params json.RawMessage) explore.Scenario {
 				if results[i] != want {
 					o.Violation = fmt.Sprintf("C18/side-by-side %s", p.Engines[i])
 					o.Msg = fmt.Sprintf("engine %d (%s on %s, depth %d) searching next to another engine returned %v; alone it returns %v", i, p.Engines[i], p.FENs[i], p.Depth, results[i], want)
+					if len(p.Engines) == 1 {
+						o.Violation = fmt.Sprintf("C18/map-order %s", p.Engines[i])
+						o.Msg = fmt.Sprintf("%s on %s, depth %d, returned %v when one `for range` over a map visited its keys in reverse; with the canonical order it returns %v: the result depends on map iteration order, which Go randomises", p.Engines[i], p.FENs[i], p.Depth, results[i], want)
+					}
 					return o
 				}
 			}
@@ -145,7 +149,7 @@ func init() {
 	Builders["side"] = buildSide
 	Defs["C18"] = &Def{
 		ID:   "C18",
-		Rule: "concurrent half of C18, built with a scheduling point at the entry of every non-trivial function of pkg/board, pkg/search, pkg/eval and the three historical engines: two or three independent engines (plain, quiescence, with and without evaluation noise, and the TUROCHAMP, SARGON and BERNSTEIN searches) search small roots side by side, also sharing one Search value; every schedule within the deviation bound must give each engine exactly the (score, PV, node count) it returns alone",
+		Rule: "concurrent half of C18, built with a scheduling point at the entry of every non-trivial function of pkg/board, pkg/search, pkg/eval and the three historical engines: two or three independent engines (plain, quiescence, with and without evaluation noise, and the TUROCHAMP, SARGON and BERNSTEIN searches) search small roots side by side, also sharing one Search value; every schedule within the deviation bound must give each engine exactly the (score, PV, node count) it returns alone; and each historical engine ALONE on castling- and capture-rich middlegames with the iteration order of every `for range` over a map as an environment choice (canonical or reversed, one deviation per loop execution): the result must not depend on it",
 		Gen: func(tier string) []explore.Scenario {
 			pairs := [][]string{{"plain", "plain"}, {"quiescence", "plain"}, {"turochamp", "turochamp"}, {"bernstein", "bernstein"}, {"plain", "turochamp"},
 				{"quiescence", "quiescence-noisy"}, {"plain-noisy", "plain"}} // one engine with evaluation noise next to one without
@@ -168,6 +172,25 @@ func init() {
 						sc.Spec = mkSpec("side", q)
 						out = append(out, sc)
 					}
+				}
+			}
+			// one engine alone: the only choices are the environment's - the order in which each
+			// `for range` over a map visits its keys (canonical or reversed, per loop execution)
+			rich := []string{
+				"r3k2r/p1ppqpb1/bn2pnp1/3PN3/1p2P3/2N2Q1p/PPPBBPPP/R3K2R w KQkq - 0 1",
+				"r3k2r/ppp2p1p/8/6p1/8/3P1N2/PPP2PPP/R1B1K2R w KQkq - 0 1",
+				"r1bq1rk1/pp2bppp/2n1pn2/2pp4/3P1B2/2PBPN2/PP1N1PPP/R2QK2R w KQ - 0 8",
+			}
+			for _, e := range []string{"turochamp", "bernstein", "sargon", "quiescence"} {
+				for _, f := range rich {
+					d := 1
+					if e == "bernstein" || (tier == "thorough" && e != "turochamp") {
+						d = 2
+					}
+					p := sideParams{Engines: []string{e}, FENs: []string{f}, Depth: d}
+					sc := buildSide(mustJSON(p))
+					sc.Spec = mkSpec("side", p)
+					out = append(out, sc)
 				}
 			}
 			return out
